@@ -24,6 +24,7 @@ DELTA_UNDERFLOW = 1e-290  # Delta below this: lambda = 1/Delta and lambda*d*d ov
 STALE_DELTA = 1e-6        # Delta at the start of a later call with a shared strategy object
 DRIFT_TOL = 1e-9          # numerical differentiation perturbs/restores the arguments in place
 STATUS = {0: 'Ftol', 1: 'Ptol', 2: 'MaxIters'}
+TINY_COORD = 1e-7   # |x_j| below which sqrt(eps)*|x_j| < 1.5e-15: the finite-difference step drowns in the rounding of an O(1) f
 
 
 def fr(w):
@@ -245,6 +246,15 @@ class C09:
                 elif m['call'] > 0 and m.get('_first_delta', 1.0) < STALE_DELTA:
                     # a second call inherits a tiny Delta from the strategy object used by the first call
                     reg = 'stale_strategy_delta'
+                if reg == 'generic' and m['mode'] in ('numerical', 'default_nojac'):
+                    # forward differences use the RELATIVE step sqrt(eps)*|x_j| for vector coordinates (no floor except
+                    # at exactly 0): a tiny non-zero coordinate gets a step below the rounding of f, its Jacobian column
+                    # is lost and the coordinate never moves (bit-identical at the end)
+                    x0v = [dec(w, 'f64') for w in m['x0']]
+                    for j, (a0, w0, w1) in enumerate(zip(x0v, m['x0'], m['final_args'])):
+                        if 0 < abs(a0) < TINY_COORD and w0 == w1:
+                            reg = 'tiny_coordinate_stuck'
+                            break
                 key0 = {'family': fam, 'mode': m['mode'], 'strat': m['strat'], 'region': reg}
                 cov['regions'][reg] = cov['regions'].get(reg, 0) + 1
                 cov['families'][fam] = cov['families'].get(fam, 0) + 1
